@@ -127,6 +127,8 @@ func (r ReportCodecEVMABIEncodeUnpacked) Encode(report llo.Report, cd llotypes.C
 }
 
 func buildPayload(encoders []ABIEncoder, values []llo.StreamValue) (payload []byte, merr error) {
+	// errors are collected and joined once (see VerifyChannelDefinitions)
+	var errs []error
 	if len(encoders) != len(values) {
 		return nil, fmt.Errorf("ABI and values length mismatch; ABI: %d, Values: %d", len(encoders), len(values))
 	}
@@ -144,13 +146,13 @@ func buildPayload(encoders []ABIEncoder, values []llo.StreamValue) (payload []by
 					vStr = []byte(fmt.Sprintf("%v(failed to marshal: %s)", values[i], marshalErr))
 				}
 			}
-			merr = errors.Join(merr, fmt.Errorf("failed to encode stream value %s at index %d; %w", string(vStr), i, err))
+			errs = append(errs, fmt.Errorf("failed to encode stream value %s at index %d; %w", string(vStr), i, err))
 			continue
 		}
 		payload = append(payload, b...)
 	}
 
-	return payload, merr
+	return payload, errors.Join(errs...)
 }
 
 func (r ReportCodecEVMABIEncodeUnpacked) Verify(cd llotypes.ChannelDefinition) error {
